@@ -418,9 +418,10 @@ var flagID = map[byte]string{
 	'r': "C13-modify-root-scalar",
 }
 
-// a path that selects the same location more than once (a union that lists a member twice, two descents):
-// the mutators work once per occurrence. Decided by: the specification's list of selected locations has a
-// repeated entry and the model reproduces the code.
+// a path that selects (or, for Set, creates) the same location more than once (a union that lists a member
+// twice, two descents, a descent before a wildcard and a name chain): the mutators work once per occurrence.
+// Decided by: the specification's list of selected or of created locations has a repeated entry and the
+// model reproduces the code.
 const repeatedID = "C13-repeated-location"
 
 // curFlags is Dev.current of the model: every flag, minus VERIF_FIXED=<letters> (to try the harness against
@@ -532,9 +533,6 @@ func (w *worker) explain(c *Case, clause string, genData bool, dw string) (strin
 	if err != nil {
 		return "", "", err
 	}
-	if involved == "" {
-		return "", "", nil
-	}
 	// the general reading of slices (i) is tried last: with it off the other slice flags do not matter
 	if strings.Contains(involved, "i") {
 		involved = strings.ReplaceAll(involved, "i", "") + "i"
@@ -549,33 +547,44 @@ func (w *worker) explain(c *Case, clause string, genData bool, dw string) (strin
 			return flagID[f], "flags=" + string(f), nil
 		}
 	}
-	off := involved
-	for round := 0; round < len(curFlags); round++ {
+	return w.explainSet(c, modelOf, acceptedAt)
+}
+
+// explainSet: with every deviation off the model must give an answer the specification accepts (that is
+// what the theorems say); the set of flags that has to be off is then shrunk greedily (the general slice
+// reading `i` is put back on first, so that it is named only where it is needed).
+func (w *worker) explainSet(c *Case, modelOf func(string) (string, error), acceptedAt func(string, string) (bool, error)) (string, string, error) {
+	try := func(off string) (bool, error) {
 		base := minus(curFlags, off)
 		out, err := modelOf(base)
 		if err != nil {
-			return "", "", err
+			return false, err
 		}
-		ok, err := acceptedAt(base, out)
+		return acceptedAt(base, out)
+	}
+	off := curFlags
+	ok, err := try(off)
+	if err != nil || !ok {
+		return "", "", err
+	}
+	order := curFlags
+	if strings.Contains(order, "i") {
+		order = "i" + strings.ReplaceAll(order, "i", "")
+	}
+	for i := 0; i < len(order); i++ {
+		smaller := strings.ReplaceAll(off, string(order[i]), "")
+		if smaller == "" {
+			continue
+		}
+		ok, err := try(smaller)
 		if err != nil {
 			return "", "", err
 		}
 		if ok {
-			return flagID[off[0]], "flags=" + off, nil
+			off = smaller
 		}
-		if base == "-" {
-			break
-		}
-		more, _, err := sensitive(base)
-		if err != nil {
-			return "", "", err
-		}
-		if more == "" {
-			break
-		}
-		off += more
 	}
-	return "", "", nil
+	return flagID[off[0]], "flags=" + off, nil
 }
 
 // problem: the code contradicts the property (clause) on simple or gen data
@@ -805,9 +814,9 @@ func (w *worker) run(c *Case) error {
 	if len(spec) != 3 {
 		return fmt.Errorf("bad spec answer %q", ans[2])
 	}
-	{
+	for _, list := range spec[:2] {
 		seen := map[string]bool{}
-		for _, l := range strings.Split(spec[0], ";") {
+		for _, l := range strings.Split(list, ";") {
 			if seen[l] {
 				c.repeated = true
 			}
@@ -839,20 +848,20 @@ func (w *worker) run(c *Case) error {
 		rep.Sample(map[string]any{"call": c.String(), "impl": impl[0].String(), "impl_gen": impl[1].String(), "model": ans[0], "spec": ans[2]})
 	}
 
-	var tied [2]bool
+	var tied, unmod [2]bool
 	var tdw [2]string
 	for g := 0; g < 2; g++ {
 		genData := g == 1
 		if ans[g] == "unmodelled" {
 			rep.Count("model.unmodelled", 1)
-			tied[g], tdw[g] = true, dw
+			tied[g], tdw[g], unmod[g] = true, dw, true
 			continue
 		}
-		ok, odw, _, err := w.tie(c, genData, impl[g], ans[g])
+		ok, odw, how, err := w.tie(c, genData, impl[g], ans[g])
 		if err != nil {
 			return err
 		}
-		tied[g], tdw[g] = ok, odw
+		tied[g], tdw[g], unmod[g] = ok, odw, how == "unmodelled"
 		if !ok {
 			c.finding("disagreement", "model:"+c.name(), "the model and the code differ",
 				map[string]any{"gen": genData, "impl": impl[g].String(), "impl_msg": impl[g].msg, "model": ans[g]})
@@ -876,7 +885,7 @@ func (w *worker) run(c *Case) error {
 		}
 		// the Must form panics exactly when the plain form reports an error (or panics), same data afterwards
 		if (must[g].kind != "ok") != (impl[g].kind != "ok") || must[g].after != impl[g].after {
-			if !(c.orderMatters() && (c.One || impl[g].kind != "ok" || must[g].kind != "ok" || c.P.has('d'))) {
+			if !(c.orderMatters() && (unmod[g] || c.One || impl[g].kind != "ok" || must[g].kind != "ok" || c.P.has('d'))) {
 				c.finding("violation", "must-form", "the Must form and the plain form differ",
 					map[string]any{"gen": genData, "plain": impl[g].String(), "must": must[g].String(), "must_msg": must[g].msg})
 			}
